@@ -137,7 +137,9 @@ def _hashlist_xml_element_from_chaingeneration(generation: MHLChainGeneration):
             E.path(convert_local_path_to_posix(generation.ascmhl_filename)),
             E.c4(generation.hash_string),
         )
-        hash_list_element.attrib["sequencenr"] = str(generation.generation_number)
+        # the attribute is optional: a chain file that came without it is written back without it
+        if generation.generation_number is not None:
+            hash_list_element.attrib["sequencenr"] = str(generation.generation_number)
 
         return hash_list_element
     else:
